@@ -356,3 +356,83 @@ Proof.
   intros n o E. unfold dsc_get in E. destruct (od_get (drun [] ops) n) as [o'|] eqn:Eg; [|discriminate].
   inversion E; subst o'. apply od_get_in in Eg. apply (proj2 (G ops [] K0)) in Eg. tauto.
 Qed.
+
+(* ------------------------------------------------------------------ *)
+(* sequences of stage masks: the checks are the checks against the bitwise OR
+   of all masks (masks may share bits; it is an OR, not a sum) *)
+Definition lor_all (ms : list Z) : Z := fold_right Z.lor 0 ms.
+
+Lemma covers_lor : forall s a b, covers s (Z.lor a b) <-> covers s a /\ covers s b.
+Proof.
+  intros s a b. unfold covers. split.
+  - intros F. split; intros n Hn B; apply F; auto; rewrite Z.lor_spec, B; auto using orb_true_r.
+  - intros [Fa Fb] n Hn B. rewrite Z.lor_spec in B. apply orb_true_iff in B. destruct B; auto.
+Qed.
+
+Lemma meets_lor : forall s a b, meets s (Z.lor a b) <-> meets s a \/ meets s b.
+Proof.
+  intros s a b. unfold meets. split.
+  - intros (n & Hn & B & Bs). rewrite Z.lor_spec in B. apply orb_true_iff in B.
+    destruct B; [left | right]; exists n; auto.
+  - intros [(n & Hn & B & Bs)|(n & Hn & B & Bs)]; exists n; rewrite Z.lor_spec, B; auto using orb_true_r.
+Qed.
+
+Lemma covers_lor_all : forall s ms, covers s (lor_all ms) <-> forall m, In m ms -> covers s m.
+Proof.
+  intros s; induction ms as [|m t IH]; cbn [lor_all fold_right].
+  - split; [intros _ m [] | intros _ n Hn B; rewrite Z.bits_0 in B; discriminate].
+  - fold (lor_all t). rewrite covers_lor, IH. split.
+    + intros [A B] x [X|X]; [subst; exact A | auto].
+    + intros F. split; [apply F; left; reflexivity | intros x X; apply F; right; exact X].
+Qed.
+
+Lemma meets_lor_all : forall s ms, meets s (lor_all ms) <-> exists m, In m ms /\ meets s m.
+Proof.
+  intros s; induction ms as [|m t IH]; cbn [lor_all fold_right].
+  - split; [intros (n & Hn & B & _); rewrite Z.bits_0 in B; discriminate | intros (m & [] & _)].
+  - fold (lor_all t). rewrite meets_lor, IH. split.
+    + intros [A|(x & X & A)]; [exists m; split; [left; reflexivity | exact A] | exists x; split; [right; exact X | exact A]].
+    + intros (x & [X|X] & A); [subst; left; exact A | right; exists x; auto].
+Qed.
+
+Lemma bool_eq_iff : forall a b : bool, (a = true <-> b = true) -> a = b.
+Proof. intros [|] [|] [A B]; auto; try (symmetry; auto); discriminate (A eq_refl) || auto. Qed.
+
+Theorem and_check_seq_fold : forall s ms,
+  and_check s (SSeq ms) = Ok (Z.land s (lor_all ms) =? lor_all ms).
+Proof.
+  intros s ms. unfold and_check. rewrite K_and_is_int. cbn [is_int]. f_equal.
+  rewrite and_loop_forallb, <- K_and_int. apply bool_eq_iff.
+  rewrite forallb_forall. rewrite (and_int_spec s (lor_all ms)). fold (covers s (lor_all ms)).
+  rewrite covers_lor_all. split; intros F m Hm.
+  - exact (proj1 (and_int_spec s m) (F m Hm)).
+  - exact (proj2 (and_int_spec s m) (F m Hm)).
+Qed.
+
+Theorem or_check_seq_fold : forall s ms,
+  or_check s (SSeq ms) = Ok (negb (Z.land s (lor_all ms) =? 0)).
+Proof.
+  intros s ms. unfold or_check. rewrite K_or_is_int. cbn [is_int]. f_equal.
+  rewrite or_loop_existsb, <- K_or_int. apply bool_eq_iff.
+  rewrite existsb_exists. rewrite (or_int_spec s (lor_all ms)). fold (meets s (lor_all ms)).
+  rewrite meets_lor_all. split; intros (m & Hm & X); exists m; (split; [exact Hm|]).
+  - exact (proj1 (or_int_spec s m) X).
+  - exact (proj2 (or_int_spec s m) X).
+Qed.
+
+(* get_joint_names: exactly the fields whose stage meets the (OR of the) given
+   stages, in the declaration order of the dictionary *)
+Definition stage_mask (a : stagesarg) : Z :=
+  match a with SInt m => m | SSeq ms => lor_all ms end.
+
+Theorem joint_names_exact : forall fields a,
+  joint_names fields a =
+    Ok (map fst (filter (fun kv => negb (Z.land (snd kv) (stage_mask a) =? 0)) fields)).
+Proof.
+  intros fields a. induction fields as [|[name stage] t IH]; [reflexivity|].
+  cbn [joint_names filter snd]. rewrite IH.
+  assert (E : or_check stage a = Ok (negb (Z.land stage (stage_mask a) =? 0))).
+  { destruct a as [m|ms]; cbn [stage_mask]; [|apply or_check_seq_fold].
+    unfold or_check. rewrite K_or_is_int. cbn [is_int]. rewrite K_or_int. reflexivity. }
+  rewrite E. destruct (negb (Z.land stage (stage_mask a) =? 0)); reflexivity.
+Qed.
